@@ -176,6 +176,8 @@ class Generator:
             rng = self.src.impl_block_containing(r"^impl<'a, T> RawVec<'a, T>$", src_name)
         elif impl == 'vec':
             rng = self.src.impl_block_containing(r"^impl<'bump, T: 'bump> Vec<'bump, T>$", src_name)
+        elif impl == 'string':
+            rng = self.src.impl_block_containing(r"^impl<'bump> String<'bump>$", src_name)
         elif impl == 'setlen':
             rng = self.src.impl_block_containing(r"^impl<'a> SetLenOnDrop<'a>$", src_name)
         elif impl == 'free':
@@ -235,7 +237,7 @@ class Generator:
         if kind == 'stmt':
             # region = 'stmt:let layout|TAIL' -> the single statement starting with the anchor, wrapped as `{ STATEMENT TAIL }`
             anchor, _, tail = what.partition('|')
-            anchor = anchor.replace('_', ' ')
+            anchor = anchor.replace('~', ' ')
             m = mask(body)
             k = m.find(anchor + ' =')
             if k < 0:
@@ -253,6 +255,24 @@ class Generator:
                     break
                 e += 1
             return '{\n        ' + body[k:e + 1] + '\n        ' + tail + '\n    }'
+        if kind == 'span':
+            # region = 'span:ANCHOR1|ANCHOR2': from the statement starting with ANCHOR1 through the `match`/block statement
+            # starting with ANCHOR2 (inclusive), wrapped as a block
+            a1, _, a2 = what.partition('|')
+            a1, a2 = a1.replace('~', ' '), a2.replace('~', ' ')
+            m = mask(body)
+            k1 = m.find(a1)
+            k2 = m.find(a2, k1 + 1)
+            if k1 < 0 or k2 < 0 or m.find(a1, k1 + 1) >= 0 or m.find(a2, k2 + 1) >= 0:
+                raise ExtractError('region anchors %r..%r not found exactly once' % (a1, a2))
+            o = m.index('{', k2)
+            c = match_close(m, o)
+            e = c + 1
+            while e < len(m) and m[e] in ' \t':
+                e += 1
+            if e < len(m) and m[e] == ';':
+                e += 1
+            return '{\n        ' + body[k1:e] + '\n    }'
         if kind != 'arm':
             raise ExtractError('unknown region kind')
         m = mask(body)
